@@ -34,6 +34,8 @@ BUDGET = {
     'thorough': {'enum': ['q2', 'q3', 'faults', 'instep2'], 'hyp': 60000, 'shards': 16},
 }
 MESSAGES = [['rpc', 'pause', 'pm'], ['rpc', 'play', None], ['rpc', 'kill', 'km'], ['rpc', 'status', None], ['bcast', 'pause', 'bp'], ['bcast', 'play', None], ['bcast', 'kill', 'bk']]
+# an empty text is a text (it blanks the status), not the absence of one
+EMPTY_TEXT = [['rpc', 'pause', ''], ['bcast', 'pause', ''], ['rpc', 'kill', ''], ['bcast', 'kill', '']]
 FAULTS = {'closed': ConnectionClosed, 'channel': ChannelInvalidStateError, 'timeout': kiwipy.TimeoutError}
 PROG_NAMES = ('wait1', 'waitwait', 'chain', 'gated', 'async2')
 
@@ -99,6 +101,14 @@ def enumerate_cases(tier, scope):
                             # a broker that stays unavailable: consecutive announcements (all from here on) fail
                             for count in (2, 99):
                                 yield {'program': cat[name], 'schedule': [['settle'], ['rpc', 'pause', 'p'], ['settle'], ['rpc', 'play', None], ['settle']], 'comm': comm, 'mode': 'quiescent', 'controller': 'thread', 'fail': {'index': index, 'exc': exc, 'count': count}}
+        # empty message texts, and a user cleanup that raises at termination (the subscriptions must be released all the same)
+        for name in ('wait1', 'chain', 'gated'):
+            for comm in ('bare', 'loop'):
+                for first in EMPTY_TEXT:
+                    for second in (['rpc', 'play', None], ['rpc', 'status', None], ['rpc', 'kill', 'km']):
+                        for raising in (None, 0, 2):
+                            sched = [['settle'], ['rpc', 'pause', 'pm'], ['settle'], ['rpc', 'play', None], ['settle'], list(first), ['settle'], list(second), ['settle']]
+                            yield {'program': cat[name], 'schedule': sched, 'comm': comm, 'mode': 'quiescent', 'controller': 'thread', 'cleanup_raises': raising}
         # one of the two subscriptions of the process times out: the other channel keeps working
         import itertools
 
@@ -132,7 +142,7 @@ def _cases(draw, tier):
             gap = draw(st.integers(0, 4))
             if gap:
                 sched.append(['tick', gap])
-        msg = list(draw(st.sampled_from(MESSAGES)))
+        msg = list(draw(st.sampled_from(MESSAGES + EMPTY_TEXT[:2])))
         if mode == 'instep' and msg[0] == 'bcast':
             msg[0] = 'rpc'
         sched.append(msg)
@@ -143,6 +153,8 @@ def _cases(draw, tier):
             if mode == 'quiescent':
                 sched.append(['settle'])
     case = {'program': prog, 'schedule': sched, 'comm': draw(st.sampled_from(['bare', 'loop'])), 'mode': mode, 'controller': draw(st.sampled_from(['thread', 'coro']))}
+    if draw(st.integers(0, 3)) == 0:
+        case['cleanup_raises'] = draw(st.integers(0, 2))
     if draw(st.integers(0, 3)) == 0:
         case['fail'] = {'index': draw(st.integers(1, 6)), 'exc': draw(st.sampled_from(list(FAULTS))), 'count': draw(st.sampled_from([1, 1, 2, 3, 99]))}
     if mode == 'quiescent' and draw(st.integers(0, 4)) == 0:
@@ -191,7 +203,7 @@ class Side:
     def __init__(self, case, remote):
         self.case = case
         self.remote = remote
-        self.ex = Exec({'program': case['program'], 'pid': 'P1'}, attach_listener=False)
+        self.ex = Exec({'program': case['program'], 'pid': 'P1', 'cleanup_raises': case.get('cleanup_raises')}, attach_listener=False)
         self.snaps = []
         self.replies = []
         self.recorded = []  # return values of the process's own pause/play/kill (in-step mode)
@@ -363,6 +375,11 @@ def execute(case):
                 side.recording = False
                 side.ex.settle(play=True, resumes=[41, 42, 43, 44], open_gates=True)
                 side.note()
+            if a.ex.proc.has_terminated():
+                # a terminated process no longer receives messages: one more status request must find nobody
+                _activate(a)
+                a.message(['rpc', 'status', None])
+                a.drain()
 
             # replies
             for i, rec in enumerate(a.replies):
